@@ -249,7 +249,8 @@ theorem feed_quant (v : Value) (q : Quant) (hq : inRangeQuant q = true) (cur : F
   simp only [xsdQuant, renderQuant, normQuant, Bool.false_eq_true, if_false, List.append_nil]
   cases mx with
   | some m =>
-    simp only [inRangeQuant, decide_eq_true_eq] at hq
+    simp only [inRangeQuant, Bool.and_eq_true, decide_eq_true_eq] at hq
+    replace hq : mn ≤ m := hq.2.1
     simp only
     split
     · next hmm =>
